@@ -131,6 +131,21 @@ class C04:
                 ins.append(("opcode-ctx", pre + bytes([k]) + b"."))
         for b in P.length_field_cases():
             ins.append(("length", b))
+        # text escapes of the protocol-0 string opcodes, complete and cut short at every length, alone and after another escape
+        # (surrogate halves, astral, NUL), before and after ordinary text
+        hexd = "1f600dc00"
+        for pre in ("", "a", "\\ud83d", "\\udc00", "\\U0001f600", "\\u0000", "\\\\", "\\ud83d\\ude00"):
+            for esc in ("\\u", "\\U", "\\x", "\\", "\\N", "\\u00e9\\u", "\\ud83d\\u", "\\ud83d\\U"):
+                for n in range(0, 10):
+                    for tail in ("", "z"):
+                        txt = (pre + esc + hexd[:n] + tail).encode()
+                        ins.append(("escape", b"V" + txt + b"\n."))
+                        if n <= 4:
+                            ins.append(("escape", b"S'" + txt + b"'\n."))
+                            ins.append(("escape", b'S"' + txt + b'"\n.'))
+        for o in ("\\0", "\\7", "\\12", "\\123", "\\400", "\\777", "\\8", "\\x4", "\\x41", "\\xg1", "\\'", '\\"', "\\a\\b\\f\\n\\r\\t\\v"):
+            for tail in ("", "z", "7"):
+                ins.append(("escape", b"S'" + (o + tail).encode() + b"'\n."))
         for b, _ in P.boundary_programs(rng, sample=ctx.scale(40, 400)):
             ins.append(("boundary", b))
         corpus = corpus_files(ctx.scale(500, None))
@@ -518,26 +533,35 @@ def enc_pickles(ctx, n, canonical=True):
 
 class C11:
     prop = "C11"
-    lean_module = "Ogorek.Props.C11Enc"
-    theorems = ["Ogorek.C11_reset", "Ogorek.C11_consumes", "Ogorek.C11_stream", "Ogorek.C11_then_eof", "Ogorek.C11_encoded_stream"]
+    lean_module = "Ogorek.Props.C11Reloc"
+    theorems = ["Ogorek.C11_relocate", "Ogorek.C11_stream_any", "Ogorek.reloc_step", "Ogorek.resolveV_reloc", "Ogorek.C11_K7_witness",
+                "Ogorek.C11_reset", "Ogorek.C11_consumes", "Ogorek.C11_stream", "Ogorek.C11_then_eof", "Ogorek.C11_encoded_stream"]
     trusted_base = TB_COMMON
     level_text = ("Lean theorems: a Decode call depends on earlier calls only through memo/heap/id supply/hook log, never through "
                   "operands, a MARK or the protocol left behind (C11_reset, the F5 repair); a successful call consumes exactly "
                   "through its STOP and what follows cannot influence it (C11_consumes, from reader locality); hence a concatenation "
-                  "decodes pickle by pickle, then io.EOF (C11_stream, C11_then_eof). For streams written by the encoder the rest is proved "
-                  "too: any number of Encode outputs, each at its own protocol, concatenated and decoded through one Decoder from ANY "
-                  "state return one value per call, each standing for exactly the value encoded, then io.EOF (C11_encoded_stream, from "
-                  "C03_roundtrip, which holds from every decoder state). PARTIAL: for memo-free pickles NOT written by the encoder, "
-                  "independence from the heap offset / id supply left by earlier pickles (pure renaming) is not proved; it is covered by the tie: every "
-                  "stream is decoded on both sides and each element is compared with the same pickle decoded alone.")
+                  "decodes pickle by pickle, then io.EOF (C11_stream, C11_then_eof). What earlier pickles leave behind does not matter: "
+                  "C11_relocate - for ANY byte string that decodes on a fresh Decoder and holds no MEMOIZE opcode, Decode on a Decoder in "
+                  "ANY state (heap, memo, id supply left by earlier pickles) succeeds too, consumes the same bytes and returns the same "
+                  "value up to a renaming of container references and *big.Int identities, building the same containers moved and "
+                  "touching nothing older (proved by a simulation of the two runs through every instruction, reloc_step, over "
+                  "invariance lemmas for marks, hashing, both equalities, both kinds of assignment and the interpreted calls); the "
+                  "unfolded results are the same (resolveV_reloc); C11_stream_any lifts it to streams. For streams written by the "
+                  "encoder C11_encoded_stream additionally gives the value each call returns. MEMOIZE is excluded for a reason: its key "
+                  "is the next free index of the Decoder's memo, which earlier pickles advance - C11_K7_witness proves that a "
+                  "self-contained pickle using MEMOIZE + BINGET returns another value after an earlier pickle than alone: known "
+                  "finding K7. Only hook-free decoders are covered by C11_relocate (a PersistentLoad hook sees a call index). "
+                  "Tie: every stream is decoded on both sides and each element is compared with the same pickle decoded alone.")
     level_note = ("trusted: Lean kernel + standard axioms; decoder model; 'values already returned are not altered' is immutability in "
                   "the model and is checked on the implementation by re-rendering every returned value after the last call")
-    technique = "Lean 4 proof (reader locality lifted to the decode loop) + differential correspondence on pickle streams + snapshot comparison"
+    technique = ("Lean 4 proof (reader locality lifted to the decode loop; simulation of a pickle's run on a fresh and on a used Decoder "
+                 "through every instruction) + differential correspondence on pickle streams + snapshot comparison")
     rule = ("sequences of 1-8 self-contained pickles: Encode output at independently chosen protocols (incl. []byte whose decoding "
             "depends on the announced protocol), memo-free generated programs that leave operands and marks behind, erroring pickles "
             "in any position; x 4 configurations; each stream decoded through one Decoder on both sides and every element compared "
             "with the same pickle decoded alone; distinct = distinct (config, stream) with >= 2 pickles")
-    assumptions = ["self-contained = no MEMOIZE/PUT/GET (the memo is deliberately shared across pickles of one stream, as in CPython)"]
+    assumptions = ["the memo is shared across the pickles of one stream, as for a CPython Unpickler object: pickles with explicit memo keys (PUT before GET) "
+                   "are self-contained; pickles that rely on MEMOIZE numbering are not, when decoded after another pickle - known finding K7"]
 
     def run(self, ctx):
         rng = ctx.rng
@@ -576,6 +600,20 @@ class C11:
         for _ in range(ctx.scale(25, 300)):
             streams.append([rng.choice(longs) for _ in range(rng.randint(2, 5))])
         streams.append(longs)
+        # pickles CPython writes for objects that hold one immutable object several times: the second occurrence is a memo fetch.
+        # Below protocol 4 the memo keys are explicit (BINPUT 0, 1, ...: each pickle overwrites them before it reads them); from
+        # protocol 4 on they are implicit (MEMOIZE = "the next free index"), which a Decoder that has already decoded a pickle
+        # counts on from where that pickle stopped - known finding K7
+        import pickle as _pickle
+        cpy = []
+        for i, tag in enumerate(("aa", "bb", "cc")):
+            s1, t1 = tag * 3, (i, tag * 2)
+            for obj in ([s1, s1], (t1, t1, s1), {"k": s1, "l": [s1, t1]}, [s1, [t1, s1], t1]):
+                for proto in (2, 3, 4, 5):
+                    cpy.append(_pickle.dumps(obj, proto))
+        for _ in range(ctx.scale(120, 1500)):
+            streams.append([rng.choice(cpy) for _ in range(rng.randint(2, 4))])
+        streams += [[cpy[3], cpy[19]], [cpy[0], cpy[16]], [cpy[2], cpy[18], cpy[34]]]
         for ps in streams:
             cfg = rng.choice(CFGS)
             lines.append(f"decs {cfg} - {hexs(b''.join(ps))}")
@@ -633,10 +671,31 @@ class C11:
             ctx.tie(line, " | ".join(got), " | ".join(l.split(" | ")[:len(want)]))
             if got != want:
                 i = next((j for j in range(min(len(got), len(want))) if got[j] != want[j]), min(len(got), len(want)))
+                k7 = 0 < i < len(ps) and _uses_implicit_memo(ps[i]) and any(_memoizes(q) for q in ps[:i])
                 ctx.violate("a pickle in a stream did not decode as it does alone (or the stream did not end with io.EOF)",
-                            line + f"   [element {i}]", want[i] if i < len(want) else "(end)", got[i] if i < len(got) else "(missing)")
+                            line + f"   [element {i}]", want[i] if i < len(want) else "(end)", got[i] if i < len(got) else "(missing)",
+                            known="K7" if k7 else None)
         for i in range(0, len(lines), max(1, len(lines) // 8)):
             ctx.sample(lines[i][:300] + " -> " + go[i][:300])
+
+
+def _opnames(p):
+    import pickletools
+    try:
+        return [op.name for op, _, _ in pickletools.genops(p)]
+    except Exception:   # noqa
+        return []
+
+
+def _memoizes(p):
+    """The pickle stores something in the memo (so a later pickle's MEMOIZE continues from a non-zero index)."""
+    return any(n in ("MEMOIZE", "PUT", "BINPUT", "LONG_BINPUT") for n in _opnames(p))
+
+
+def _uses_implicit_memo(p):
+    """MEMOIZE (key = next free index of the Decoder's memo) together with a fetch by explicit index."""
+    ns = _opnames(p)
+    return "MEMOIZE" in ns and any(n in ("GET", "BINGET", "LONG_BINGET") for n in ns)
 
 
 # ------------------------------------------------------------------------------------------- C14
